@@ -1,0 +1,8 @@
+//go:build verif
+
+package flags
+
+// VerifRegexSources returns the source text of the -F and -C argument patterns.
+func VerifRegexSources() (filter, comparison string) {
+	return filterRegexp.String(), comparisonRegexp.String()
+}
